@@ -1466,7 +1466,7 @@ std::vector<uint8_t> MDSDRV_Converter::convert_macro_track(const std::vector<MDS
  */
 int MDSDRV_Converter::get_subroutine(int track_id, bool in_drum_mode, bool drum_mode_enabled)
 {
-	int mapped_id = ((track_id << 2) | (in_drum_mode << 1) | (drum_mode_enabled));
+	int mapped_id = ((track_id * 4) | (in_drum_mode << 1) | (drum_mode_enabled));
 	auto search = subroutine_map.find(mapped_id);
 	if(search == subroutine_map.end())
 	{
